@@ -211,13 +211,31 @@ theorem takeToBrace_name (n rest : Str) (hn : ∀ c ∈ n, c ≠ '}' ∧ c ≠ '
     rw [takeToBrace.eq_def]
     split <;> simp_all
 
+theorem startsWith_length : ∀ (a p : Str), startsWith a p = true → p.length ≤ a.length
+  | _, [], _ => by simp
+  | [], _ :: _, h => by simp [startsWith] at h
+  | x :: a, c :: p, h => by
+    simp only [startsWith, Bool.and_eq_true] at h
+    have := startsWith_length a p h.2
+    simp; omega
+
+/-- what `BRACKETED_TAG_REGEX` extracts from `${n}…`: the `last-saved#` marker (if `n` starts with it) and the name -/
 theorem matchRef_name (n rest : Str) (hn : NameOk n) :
-    matchRef (n ++ '}' :: rest) = some (false, n, rest) := by
-  have h1 : startsWith (n ++ '}' :: rest) lastSavedTag = false := by
-    rw [startsWith_sep '}' rest n lastSavedTag (by decide)]
-    exact hn.2
-  have h2 := takeToBrace_name n rest (fun c hc => ⟨(hn.1 c hc).1, (hn.1 c hc).2.1⟩)
-  simp [matchRef, h1, h2]
+    matchRef (n ++ '}' :: rest) =
+      some (startsWith n lastSavedTag, (if startsWith n lastSavedTag then n.drop lastSavedTag.length else n), rest) := by
+  have h1 : startsWith (n ++ '}' :: rest) lastSavedTag = startsWith n lastSavedTag :=
+    startsWith_sep '}' rest n lastSavedTag (by decide)
+  cases hs : startsWith n lastSavedTag with
+  | false =>
+    have h2 := takeToBrace_name n rest (fun c hc => ⟨(hn c hc).1, (hn c hc).2.1⟩)
+    simp [matchRef, h1, hs, h2]
+  | true =>
+    have hl := startsWith_length n lastSavedTag hs
+    have hd : (n ++ '}' :: rest).drop lastSavedTag.length = n.drop lastSavedTag.length ++ '}' :: rest :=
+      List.drop_append_of_le_length hl
+    have h2 := takeToBrace_name (n.drop lastSavedTag.length) rest
+      (fun c hc => ⟨(hn c (List.mem_of_mem_drop hc)).1, (hn c (List.mem_of_mem_drop hc)).2.1⟩)
+    simp [matchRef, h1, hs, hd, h2]
 
 theorem escText_plain (n : Str) (hn : ∀ c ∈ n, c ≠ '&' ∧ c ≠ '<' ∧ c ≠ '>') : escText n = n := by
   induction n with
@@ -234,7 +252,7 @@ theorem escText_refMarkup (n : Str) (hn : NameOk n) : escText (refMarkup n) = re
   rcases hc with (rfl | rfl | hc) | rfl
   · decide
   · decide
-  · exact ⟨(hn.1 c hc).2.2.1, (hn.1 c hc).2.2.2.1, (hn.1 c hc).2.2.2.2⟩
+  · exact ⟨(hn c hc).2.2.1, (hn c hc).2.2.2.1, (hn c hc).2.2.2.2⟩
   · decide
 
 /-- all names are delimitable and known, all literal texts are free of `${` -/
@@ -271,7 +289,9 @@ theorem subTo_tail (refs : List (Str × Str)) : ∀ (tail items : List (Str × S
           simp [Cell.tailText, refMarkup, escText_cons, escTextChar] at h') t ht
       simp only [Cell.tailText, escText_append, escText_refMarkup n hn, itemsMarkup]
       simp only [refMarkup, List.cons_append, List.append_assoc]
-      refine SubTo.ref (matchRef_name n _ hn) hv ?_ h1
+      refine SubTo.ref (matchRef_name n _ hn) (by
+        unfold varReplName at hv
+        cases hs : startsWith n lastSavedTag <;> simp_all) ?_ h1
       simp only [List.length_append, List.length_cons]
       omega
     · simp at hr
@@ -484,5 +504,124 @@ theorem nodeParsed_items (tag head : Str) (items : List (Str × Str)) (htag : is
   unfold nodeParsed
   rw [hparse]
   simp only [cellKids, map_shallow_kids]
+
+/-! ## instance() expressions: when `replace_with_output` is the identity -/
+
+theorem startsWith_append_self (p b : Str) : startsWith (p ++ b) p = true := by
+  induction p with
+  | nil => cases b <;> simp [startsWith]
+  | cons c p ih => simp [startsWith, ih]
+
+theorem isInfix_append (a p b : Str) : isInfix p (a ++ (p ++ b)) = true := by
+  induction a with
+  | nil =>
+    cases h : p ++ b with
+    | nil =>
+      have : p = [] := by cases p <;> simp_all
+      subst this
+      simp [isInfix]
+    | cons x xs =>
+      have hs : startsWith (x :: xs) p = true := by rw [← h]; exact startsWith_append_self p b
+      simp [isInfix, hs]
+  | cons c a ih => simp [isInfix, ih]
+
+/-- the values of the tokens, concatenated, and the remainder give the input back -/
+theorem scanAux_concat (rules : Lexer.Rules) : ∀ (f : Nat) (s : Str),
+    ((Lexer.scanAux rules f s).1.map (·.2)).flatten ++ (Lexer.scanAux rules f s).2 = s := by
+  intro f
+  induction f with
+  | zero => intro s; simp [Lexer.scanAux]
+  | succ f ih =>
+    intro s
+    rw [Lexer.scanAux.eq_def]
+    simp only
+    split
+    · simp
+    · rename_i n k _
+      split
+      · simp
+      · simp only [List.map_cons, List.flatten_cons, List.append_assoc, ih (s.drop k), List.take_append_drop]
+
+theorem mem_flatten_infix (v : Str) : ∀ (l : List Str) (rest : Str), v ∈ l → isInfix v (l.flatten ++ rest) = true := by
+  intro l
+  induction l with
+  | nil => intro rest h; simp at h
+  | cons x xs ih =>
+    intro rest h
+    rcases List.mem_cons.mp h with rfl | h
+    · simpa [List.append_assoc] using isInfix_append [] v (xs.flatten ++ rest)
+    · have := ih rest h
+      simp only [List.flatten_cons, List.append_assoc]
+      -- an infix of the tail is an infix of the whole
+      have key : ∀ (a b : Str), isInfix v b = true → isInfix v (a ++ b) = true := by
+        intro a b hb
+        induction a with
+        | nil => simpa using hb
+        | cons c a iha => simp [isInfix, iha]
+      exact key x _ this
+
+theorem withPos_values : ∀ (p : Nat) (l : List (String × Str)), (Lexer.withPos p l).map (·.value) = l.map (·.2)
+  | _, [] => by simp [Lexer.withPos]
+  | p, (n, v) :: rest => by simp [Lexer.withPos, withPos_values (p + v.length) rest]
+
+/-- a token of `parse_expression(s)` has a value that occurs in `s` -/
+theorem token_value_infix (rules : Lexer.Rules) (s : Str) (t : Lexer.Token)
+    (ht : t ∈ (Lexer.parseWith rules s).1) : isInfix t.value s = true := by
+  have hc := scanAux_concat rules (s.length + 1) s
+  have hv : t.value ∈ ((Lexer.scanAux rules (s.length + 1) s).1.map (·.2)) := by
+    rw [← withPos_values 0]
+    exact List.mem_map_of_mem ht
+  have := mem_flatten_infix t.value _ (Lexer.scanAux rules (s.length + 1) s).2 hv
+  rwa [hc] at this
+
+theorem fbStep_idle (st : FB) (t : Lexer.Token) (h1 : st.instanceEnter = false) (h2 : isInstanceCall t = false) :
+    fbStep st t = st := by
+  simp [fbStep, h1, h2]
+
+theorem foldl_fbStep_idle (tokens : List Lexer.Token) (h : ∀ t ∈ tokens, isInstanceCall t = false) :
+    tokens.foldl fbStep {} = {} := by
+  suffices ∀ (st : FB), st.instanceEnter = false → tokens.foldl fbStep st = st from this {} rfl
+  induction tokens with
+  | nil => intro st _; rfl
+  | cons t ts ih =>
+    intro st hst
+    simp only [List.foldl_cons]
+    rw [fbStep_idle st t hst (h t (List.mem_cons_self ..))]
+    exact ih (fun u hu => h u (List.mem_cons_of_mem _ hu)) st hst
+
+theorem findBoundaries_none (tokens : List Lexer.Token) (h : ∀ t ∈ tokens, isInstanceCall t = false) :
+    findBoundaries tokens = [] := by
+  simp [findBoundaries, foldl_fbStep_idle tokens h, pairUp]
+
+/-- the lexicon of the current source is one the model knows (re-checked against the regenerated table) -/
+theorem activeRules_some : ∃ rules, Lexer.activeRules = some rules := by
+  have : Lexer.activeRules.isSome = true := by decide +kernel
+  exact Option.isSome_iff_exists.mp this
+
+/-- **`replace_with_output` is the identity on a string that does not contain `instance(`** (or is short):
+    `find_boundaries` starts an expression only at a FUNC_CALL token whose value is `instance(` -/
+theorem replaceWithOutput_noInstance (refs : List (Str × Str)) (x : Str)
+    (h : (9 < x.length && isInfix "instance(".toList x) = false) : replaceWithOutput refs x = .ok x := by
+  unfold replaceWithOutput
+  by_cases hl : x.length ≤ 9
+  · simp [hl]
+  · obtain ⟨rules, hr⟩ := activeRules_some
+    have hinf : isInfix "instance(".toList x = false := by
+      have : 9 < x.length := by omega
+      simpa [this] using h
+    have hb : findBoundaries (Lexer.parseWith rules x).1 = [] := by
+      apply findBoundaries_none
+      intro t ht
+      cases hc : isInstanceCall t with
+      | false => rfl
+      | true =>
+        have hv : t.value = "instance(".toList := by
+          simp only [isInstanceCall, Bool.and_eq_true, beq_iff_eq] at hc
+          exact hc.2
+        have := token_value_infix rules x t ht
+        rw [hv, hinf] at this
+        exact absurd this (by simp)
+    simp only [hl, if_false, Lexer.parseExpression, hr, Option.map_some, hb, List.mapM_nil]
+    simp [spliceAll]
 
 end Pyxv.Chan
